@@ -119,6 +119,10 @@ pub fn entry_F1(f: &syn::Field) -> R<F1> { fl(F1::from_field(f)) }
 pub fn entry_V1(v: &syn::Variant) -> R<V1> { fl(V1::from_variant(v)) }
 pub fn entry_V2(v: &syn::Variant) -> R<V2> { fl(V2::from_variant(v)) }
 pub fn entry_T1(t: &syn::TypeParam) -> R<T1> { fl(T1::from_type_param(t)) }
+// the `generics` magic field in its darling::ast form (C16): params mirrored one to one, where clause kept
+pub fn entry_ast_generics(g: &syn::Generics) -> R<ast::Generics<ast::GenericParam>> {
+    fl(<ast::Generics<ast::GenericParam> as darling::FromGenerics>::from_generics(g))
+}
 
 // ---- the stand-alone shape-set API (C18a)
 use darling::util::{Shape, ShapeSet};
